@@ -194,6 +194,9 @@ int main(int argc, char** argv) {
   std::string oboard = a.opt("oboard", "generic");
   // "aligned": open-path points sharing x or y coordinates, so that open paths start, end and run horizontally / vertically
   if (oboard == "aligned") PO = {{2, 40}, {98, 40}, {50, 3}, {50, 97}, {20, 75}, {80, 75}, {33, 22}, {66, 22}};
+  // "flat": open-path points far to the left and right of the closed boards at nearly the same height: open segments with |dx| > 100 |dy| that are
+  // not horizontal (the engine treats such edges specially when it places crossings), crossing the closed paths at non-integer heights
+  if (oboard == "flat") PO = {{-400, 38}, {500, 41}, {-350, 61}, {450, 60}, {-420, 22}, {480, 25}, {-300, 77}, {520, 79}};
   std::vector<Path> subs = polygons_over(PS, k, 3, nmax), clips = polygons_over(PC, k, 3, nmax);
   std::vector<Path> lines; std::vector<char> is_loop;
   for (int n = 2; n <= omax; ++n) { std::vector<std::vector<int>> t; enum_tuples(ko, n, false, t); for (auto& idx : t) { Path p; for (int i : idx) p.push_back(PO[i]); lines.push_back(p); is_loop.push_back(0); } }
